@@ -486,4 +486,138 @@ theorem pre_step {typ : DType} {K : List (Kind × String)} {pc pc' : Pc} {i : Na
         · exact hall y hold
         · rw [h3]; exact hk
 
+/-! ## the whole loop -/
+
+/-- mid of the SCTP transport, if it has one -/
+def Pc.sctpMid (pc : Pc) : Option String := pc.sctp.bind (·.mid)
+
+/-- the application sections of `ms` agree with each other and with the mid the SCTP transport already has -/
+structure SctpFits (pc : Pc) (ms : List MSec) : Prop where
+  same : ∀ m1 ∈ ms, ∀ m2 ∈ ms, m1.kind.isMedia = false → m2.kind.isMedia = false → m1.mid = m2.mid
+  old : ∀ m ∈ ms, m.kind.isMedia = false → ∀ y, pc.sctpMid = some y → y = m.mid
+
+def AllMedia (ts : List Transceiver) : Prop := ∀ t ∈ ts, t.kind.isMedia = true
+
+structure FoldResult (typ : DType) (K : List (Kind × String)) (pc pc' : Pc) (ms : List MSec) (i : Nat) : Prop where
+  pre : Pre K pc'.transceivers
+  prefs : PrefsSub pc'.transceivers pc.transceivers
+  keep : ∀ x ∈ pc.transceivers, x.mid ≠ none → (∀ m ∈ ms, x.mid ≠ some m.mid) → x ∈ pc'.transceivers
+  owners : ∀ (j : Nat) (m : MSec), ms[j]? = some m → m.kind.isMedia = true →
+    ∃ t' ∈ pc'.transceivers, Negotiated typ m t' ∧ t'.mline = some (i + j)
+  media : AllMedia pc.transceivers → AllMedia pc'.transceivers
+  slots : pc'.slots = pc.slots
+  seen : ∀ x, x ∈ pc'.seenMids ↔ x ∈ pc.seenMids ∨ x ∈ ms.map (·.mid)
+  sctpApp : ∀ m ∈ ms, m.kind.isMedia = false → pc'.sctpMid = some m.mid
+  sctpOld : pc'.sctpMid = pc.sctpMid ∨ ∃ m ∈ ms, m.kind.isMedia = false ∧ pc'.sctpMid = some m.mid
+  sctpKeep : pc.sctp.isSome = true → pc'.sctp.isSome = true
+
+theorem mem_setAdd {s : List String} {m x : String} : x ∈ setAdd s m ↔ x ∈ s ∨ x = m := by
+  unfold setAdd
+  split
+  · rename_i h
+    constructor
+    · intro hx; exact .inl hx
+    · rintro (hx | rfl)
+      · exact hx
+      · simpa using h
+  · simp
+
+theorem pre_fold {typ : DType} {K : List (Kind × String)} (hnd : (K.map (·.2)).Nodup) : ∀ (ms : List MSec) (pc : Pc) (i : Nat),
+    Pre K pc.transceivers → (∀ (j : Nat) (m : MSec), ms[j]? = some m → K[i + j]? = some (m.kind, m.mid)) →
+    (∀ m ∈ ms, m.kind.isMedia = true → Accepts pc.transceivers m) → SctpFits pc ms →
+    ∃ pc', applyRemote typ pc ms i = .ok pc' ∧ FoldResult typ K pc pc' ms i := by
+  intro ms
+  induction ms with
+  | nil =>
+    intro pc i hP _ _ _
+    refine ⟨pc, by simp [applyRemote], hP, PrefsSub.refl _, fun x hx _ _ => hx, fun j m hj => (by simp at hj), fun h => h, rfl,
+      fun x => (by simp), fun m hm => (by cases hm), .inl rfl, fun h => h⟩
+  | cons m ms ih =>
+    intro pc i hP hidx hacc hfit
+    have hK : K[i]? = some (m.kind, m.mid) := by simpa using hidx 0 m (by simp)
+    -- the step succeeds
+    have hstep : ∃ pc1, applyRemoteSec typ pc i m = .ok pc1 := by
+      cases hk : m.kind.isMedia
+      · exact applyRemoteSec_app_ok hk
+      · exact applyRemoteSec_media_ok hk (hacc m (by simp) hk)
+    obtain ⟨pc1, h1⟩ := hstep
+    obtain ⟨hP1, hpref1, hkeep1, hown1, hmedia1⟩ := pre_step hP hK hnd h1
+    obtain ⟨hslots1, hseen1, hsctpM, hsctpA⟩ := applyRemoteSec_frame h1
+    -- SCTP mid after the step
+    have hsm1 : (m.kind.isMedia = true → pc1.sctp = pc.sctp) ∧
+        (m.kind.isMedia = false → pc1.sctpMid = some m.mid ∧ pc1.sctp.isSome = true) := by
+      refine ⟨hsctpM, fun hk => ?_⟩
+      obtain ⟨_, s', hs', hmid⟩ := hsctpA hk
+      refine ⟨?_, by simp [hs']⟩
+      simp only [Pc.sctpMid, hs', Option.bind_some, hmid]
+      cases hy : pc.sctp.bind (·.mid) with
+      | none => simp
+      | some y => have := hfit.old m (by simp) hk y hy; simp [this]
+    have hfit1 : SctpFits pc1 ms := by
+      refine ⟨fun a ha b hb => hfit.same a (by simp [ha]) b (by simp [hb]), ?_⟩
+      intro m2 hm2 hk2 y hy
+      cases hk : m.kind.isMedia
+      · rw [(hsm1.2 hk).1] at hy
+        cases hy
+        exact hfit.same m (by simp) m2 (by simp [hm2]) hk hk2
+      · have : pc1.sctpMid = pc.sctpMid := by simp [Pc.sctpMid, hsm1.1 hk]
+        rw [this] at hy
+        exact hfit.old m2 (by simp [hm2]) hk2 y hy
+    obtain ⟨pc', h2, r⟩ := ih pc1 (i + 1) hP1
+      (fun j mj hj => by have := hidx (j + 1) mj (by simpa using hj); rw [← this]; congr 1; omega)
+      (fun m2 hm2 hk2 => (hacc m2 (by simp [hm2]) hk2).mono hpref1) hfit1
+    have hmnot : m.mid ∉ ms.map (·.mid) := by
+      intro hmem
+      obtain ⟨m2, hm2, hmm⟩ := List.mem_map.mp hmem
+      obtain ⟨j, hj⟩ := List.getElem?_of_mem hm2
+      have h3 := hidx (j + 1) m2 (by simpa using hj)
+      rw [← hmm] at hK
+      have := (keys_index_inj hnd hK h3).1
+      omega
+    refine ⟨pc', by simp only [applyRemote, h1]; exact h2, r.pre, r.prefs.trans hpref1, ?_, ?_, fun h => r.media (hmedia1 h),
+      r.slots.trans hslots1, ?_, ?_, ?_, ?_⟩
+    · intro x hx hxn hxm
+      exact r.keep x (hkeep1 x hx hxn (hxm m (by simp))) hxn (fun m2 hm2 => hxm m2 (by simp [hm2]))
+    · intro j mj hj hk
+      cases j with
+      | zero =>
+        simp at hj; subst hj
+        obtain ⟨t', ht', hN, hl⟩ := hown1 hk
+        refine ⟨t', r.keep t' ht' (by rw [hN.mid]; simp) ?_, hN, by simpa using hl⟩
+        intro m2 hm2
+        rw [hN.mid]
+        intro hh
+        exact hmnot (by rw [Option.some.inj hh]; exact List.mem_map_of_mem hm2)
+      | succ n =>
+        obtain ⟨t', ht', hN, hl⟩ := r.owners n mj (by simpa using hj) hk
+        exact ⟨t', ht', hN, by rw [hl]; congr 1; omega⟩
+    · intro x
+      rw [r.seen x, hseen1, mem_setAdd]
+      simp only [List.map_cons, List.mem_cons]
+      constructor
+      · rintro ((h | h) | h)
+        · exact .inl h
+        · exact .inr (.inl h)
+        · exact .inr (.inr h)
+      · rintro (h | h | h)
+        · exact .inl (.inl h)
+        · exact .inl (.inr h)
+        · exact .inr h
+    · intro m2 hm2 hk2
+      rcases List.mem_cons.mp hm2 with rfl | hm2
+      · rcases r.sctpOld with h | ⟨m3, hm3, hk3, h⟩
+        · rw [h]; exact (hsm1.2 hk2).1
+        · rw [h, hfit.same m2 (by simp) m3 (by simp [hm3]) hk2 hk3]
+      · exact r.sctpApp m2 hm2 hk2
+    · rcases r.sctpOld with h | ⟨m3, hm3, hk3, h⟩
+      · cases hk : m.kind.isMedia
+        · exact .inr ⟨m, by simp, hk, by rw [h]; exact (hsm1.2 hk).1⟩
+        · left; rw [h]; simp [Pc.sctpMid, hsm1.1 hk]
+      · exact .inr ⟨m3, by simp [hm3], hk3, h⟩
+    · intro hs
+      apply r.sctpKeep
+      cases hk : m.kind.isMedia
+      · exact (hsm1.2 hk).2
+      · rw [hsm1.1 hk]; exact hs
+
 end Aiortc.Model.Negotiate
